@@ -31,7 +31,15 @@ def boundary_sizes():
 def contents(max_small=48, big=True):
     """Content descriptors (see common.make_content): literal small contents and patterned
     contents whose size sits on / next to a multiple of a read-buffer size."""
-    small = st.binary(min_size=0, max_size=max_small).map(lambda b: {"hex": b.hex()})
+    # data-dependent edge cases: line ends only, a trailing newline, text that looks like something the store writes itself (a
+    # reference-list line, a digest, the name of its configuration file), digits only, "0e..." (what loose comparisons misread)
+    special = st.sampled_from([b"\n", b"\n\n\n", b"\r\n", b"abc\n", b"\nabc", b"hashstore.yaml", b"0e12345678", b"0000000000",
+                               b"e3b0c44298fc1c149afbf4c8996fb92427ae41e4649b934ca495991b7852b855", b"pid\npid\n", b"_delete",
+                               b"\xff\xfe\x00", b"\xef\xbb\xbf", b"None", b"False", b" "]).map(
+        lambda b: {"hex": b[:max(1, max_small)].hex()})
+    small = st.one_of(st.binary(min_size=0, max_size=max_small).map(lambda b: {"hex": b.hex()}),
+                      st.binary(min_size=0, max_size=max_small).map(lambda b: {"hex": b.hex()}),
+                      st.binary(min_size=0, max_size=max_small).map(lambda b: {"hex": b.hex()}), special)
     if not big:
         return small
     sized = st.builds(lambda p, n: {"pat": p, "n": n}, _pat(), st.sampled_from(boundary_sizes()))
